@@ -91,11 +91,13 @@ func runTag(in tagIn) (interface{}, error) {
 		return out, nil
 	}
 	cache := route.NewGlobCache(10)
+	cnt := newRedirCounter()
 	p := &proxy.HTTPProxy{
 		Transport: errTransport{},
 		Lookup: func(r *http.Request) *route.Target {
 			return tbl.Lookup(r, "", route.Picker["rr"], route.Matcher["prefix"], cache, true)
 		},
+		Stats: proxy.HttpStatsHandler{RedirectCounter: cnt},
 	}
 	req := &http.Request{Method: "GET", URL: u, Host: in.Host, Header: http.Header{}, RequestURI: in.Target, RemoteAddr: "127.0.0.1:1"}
 	if in.XFP != "" {
@@ -110,7 +112,9 @@ func runTag(in tagIn) (interface{}, error) {
 	}
 	rec := httptest.NewRecorder()
 	a := seqAns{}
-	if msg := serveRecover(p, rec, req); msg != "" {
+	msg := serveRecover(p, rec, req)
+	a.Counted, a.CountCode = *cnt.n, *cnt.code
+	if msg != "" {
 		a.Panic = msg
 	} else {
 		a.Status = rec.Code
